@@ -9,6 +9,7 @@ TRUSTED_BASE = [
     "axioms accepted per theorem: propext, Classical.choice, Quot.sound (enforced by ChipFiring/Audit.lean)",
     "fidelity of the hand-written model: differential correspondence check against /repo's working tree (this run)",
     "harness: name<->index bijection, order extraction, canonicalisation (harness/pyside.py, harness/main.py)",
+    "witness phase: what the implementation chose where the property leaves a choice (listed strategies, returned orientation, recorded snapshots, in-place results) is validated by executable checkers whose correctness is a theorem (C04.strategyWorks_exact, C07.linEquiv_exact, C09.checker_sound); the topological positions handed to the certificate checker are computed by the harness and need not be trusted (soundness of the checker holds for any positions)",
     "CPython 3.12 semantics of int/dict/set/sorted; behaviour of json, copy.deepcopy, itertools (exercised, not verified)",
 ]
 ASSUMPTIONS = [
@@ -634,7 +635,7 @@ NONTRIVIAL_RULE["C14"] = "non-trivial: n>=3 with a multi-edge or cycle and at le
 PROPS["C14"] = {"generate": c14_generate, "strata": algo_strata,
                 "nontrivial": lambda rec: algo_nontrivial(rec) and any(x < 0 for x in rec["scn"]["deg"]),
                 "rule": "GreedyAlgorithm.play on generated connected multigraphs x divisors (debt magnitudes up to 12 so that the 10|V| budget is straddled), plus long-haul cases needing between one and two budgets; play() is asked twice on the same solver (the second script must still certify the original divisor); each case under 3 (quick) / 16 (thorough) PYTHONHASHSEED values so that the visiting order varies; the certificate is re-checked through the implementation's own CFLaplacian.apply",
-                "theorems": ["success_certificate", "order_irrelevant", "failure_only_if_unwinnable_or_capped", "winnable_has_clearing_script"]}
+                "theorems": ["success_certificate", "order_irrelevant", "failure_only_if_unwinnable_or_capped", "winnable_has_clearing_script", "resumed_play_certificate"]}
 
 
 # ---- C17
